@@ -1,10 +1,10 @@
 import G3D.Proofs.PolyPoly
 import G3D.Props.C04
 import G3D.Proofs.BodySoundSets
+import G3D.Proofs.K2
 /-! # C03 — ConvexPolygon / ConvexPolyhedron × ConvexPolygon / ConvexPolyhedron  (partial)
-    Proved: polygon × polygon whenever the carrier planes differ (crossing or parallel) — the result
-    denotes exactly the common points of the two hulls.  The coplanar case (kernel K2), polygon ×
-    polyhedron (K3) and polyhedron × polyhedron (K3, K4, K6) are not proved; they are decided on every
+    Proved: polygon × polygon EXACT in every relative position (kernels K0, K1, K2, K6); soundness of every pair.
+    Completeness of polygon × polyhedron (K3) and polyhedron × polyhedron (K3, K4) is not proved; decided on every
     run by the correspondence against exact vertex enumeration. -/
 namespace G3D.Props.C03
 open G3D V3
@@ -29,4 +29,24 @@ theorem inter_body_sound (a b : Obj) (ha : OpWF a) (hb : OpWF b) (o : Option Obj
 theorem inter_polygon_polygon_sound (a b : Polygon) (ha : a.Valid) (hb : b.Valid) :
     Sound (interPolygonPolygon a b) (InHull a.pts) (InHull b.pts) := interPolygonPolygon_sound a b ha hb
 
+/-! ### kernel K2 — polygon × polygon is EXACT in every relative position -/
+/-- **ConvexPolygon × ConvexPolygon, full**: for two Valid polygons — crossing planes, parallel planes or the SAME plane
+    (overlapping, nested, touching in a point or along an edge, disjoint) — `intersection` returns without error None, a Point,
+    a proper Segment or a polygon, whose points are exactly the common points of the two hulls -/
+theorem inter_polygon_polygon_exact (a b : Polygon) (ha : a.Valid) (hb : b.Valid) :
+    ExactW (inter (.polygon a) (.polygon b)) (InHull a.pts) (InHull b.pts) := by
+  rw [Props.C04.inter_eq_ref]; exact interPolygonPolygon_exact a b ha hb
+
+/-- a polygon returned in the coplanar case is Valid (so it has the true vertex set of the intersection: dimension and
+    vertex set, hence length and area, are those of the exact intersection) -/
+theorem inter_polygon_polygon_result_valid (a b : Polygon) (ha : a.Valid) (hb : b.Valid)
+    (hco : a.plane.eqv b.plane = true) (P : Polygon) (h : interPolygonPolygon a b = .ok (some (.polygon P))) :
+    P.Valid ∧ ∃ out, coplanarCollect a b = .ok out ∧ List.Perm P.pts out :=
+  interPolygonPolygon_coplanar_polygon_valid a b ha hb hco P h
+
+/-- no "Bug detected" for any two Valid polygons -/
+theorem inter_polygon_polygon_total (a b : Polygon) (ha : a.Valid) (hb : b.Valid) :
+    ∀ e, inter (.polygon a) (.polygon b) ≠ .error e := by
+  obtain ⟨o, ho, _⟩ := inter_polygon_polygon_exact a b ha hb
+  intro e h; rw [ho] at h; cases h
 end G3D.Props.C03
